@@ -91,6 +91,9 @@ enum Verdict { REJECT = 0, ACCEPT = 1, UNKNOWN = 2 };
 // lenient dialect L (superset of everything the property lets the library accept)
 Verdict L_buffer(const uint8_t* p, size_t n, bool require_nul);
 bool valid_utf8(const std::string& s);
+bool RV_parse_lenient(const std::string& text, RV& out);   // lenient dialect, whole text
+std::string rv_ser(const RV& v);                           // loss-free serialisation of a reference value (case descriptors)
+bool rv_deser(const std::string& s, RV& out);
 
 // ------------------------------------------------------------------ structural walk of a real tree
 struct Walk {
